@@ -101,6 +101,11 @@ func (x *Exec) intrinsic(fn *ssa.Function) (intrinsicFn, bool) {
 		return h, true
 	}
 	h, ok := intrinsicTab[fn.String()]
+	if !ok {
+		if kind, isAtomic := atomicKey(fn); isAtomic {
+			return func(x *Exec, fn *ssa.Function, a []Value) Value { return x.atomicOp(fn, kind, a) }, true
+		}
+	}
 	return h, ok
 }
 
@@ -989,19 +994,34 @@ func onceDo(x *Exec, fn *ssa.Function, a []Value) Value {
 	if p.Obj == nil {
 		x.obligation(tFalse, "nil *sync.Once")
 	}
-	ov, ok := x.loadPath(p.Obj.Val, p.Path).(OnceV)
-	if !ok {
-		panic(unsupported("sync.Once with unexpected representation"))
+	get := func() OnceV {
+		ov, ok := x.loadPath(p.Obj.Val, p.Path).(OnceV)
+		if !ok {
+			panic(unsupported("sync.Once with unexpected representation"))
+		}
+		return ov
 	}
+	put := func(ov OnceV) { p.Obj.Val = x.storePath(p.Obj.Val, p.Path, ov) }
+	x.yieldPoint()
+	ov := get()
 	x.syncEvent("once-enter", ov.ID, p.Obj)
+	if ov.Running && x.sched != nil {
+		// another goroutine is inside f: Do blocks until it has returned
+		x.sched.blockUntil(x, func() bool { return !get().Running })
+		ov = get()
+	}
 	if x.branch(ov.Done) {
 		x.syncEvent("once-skip", ov.ID, p.Obj)
 		return nil
 	}
 	x.syncEvent("once-begin", ov.ID, p.Obj)
+	ov.Running = true
+	put(ov)
 	x.callValue(a[1], nil)
+	ov = get()
+	ov.Running = false
 	ov.Done = tTrue
-	p.Obj.Val = x.storePath(p.Obj.Val, p.Path, ov)
+	put(ov)
 	if p.Obj.Global && !x.inInit {
 		x.writes[p.Obj.Name+pathKey(p.Path)] = true
 	}
@@ -1018,9 +1038,45 @@ func (x *Exec) syncEvent(kind string, id int, o *Object) {
 func syncNop(kind string) intrinsicFn {
 	return func(x *Exec, fn *ssa.Function, a []Value) Value {
 		p := a[0].(Ptr)
-		x.syncEvent(kind, p.Obj.ID, p.Obj)
+		if p.Obj == nil {
+			x.obligation(tFalse, "nil mutex")
+		}
+		key := fmt.Sprintf("mutex:%d%s", p.Obj.ID, pathKey(p.Path))
+		st, ok := x.mutexes[key]
+		if !ok {
+			st = &mutexState{holder: -1}
+			if x.mutexes == nil {
+				x.mutexes = map[string]*mutexState{}
+			}
+			x.mutexes[key] = st
+		}
+		x.yieldPoint()
+		switch kind {
+		case "lock":
+			if x.sched != nil {
+				x.sched.blockUntil(x, func() bool { return st.holder < 0 && st.readers == 0 })
+			} else if st.holder >= 0 {
+				x.obligation(tFalse, "deadlock: sync.Mutex locked twice by the same goroutine")
+			}
+			st.holder = x.thread
+		case "unlock":
+			st.holder = -1
+		case "rlock":
+			if x.sched != nil {
+				x.sched.blockUntil(x, func() bool { return st.holder < 0 })
+			}
+			st.readers++
+		case "runlock":
+			st.readers--
+		}
+		x.syncEvent(kind, p.Obj.ID*1000+len(p.Path), p.Obj)
 		return nil
 	}
+}
+
+type mutexState struct {
+	holder  int
+	readers int
 }
 
 // ---------------------------------------------------------------- norm / pbkdf2 / bytes
@@ -1324,4 +1380,130 @@ func sortSearchStrings(x *Exec, fn *ssa.Function, a []Value) Value {
 	x.addPC(Ule(any, BVi(int64(len(list)), 64)))
 	v, _ := pwApply(keys, vals, id, 64, any)
 	return v
+}
+
+// ---------------------------------------------------------------- sync/atomic (sequentially consistent cells)
+
+func atomicKey(fn *ssa.Function) (kind string, ok bool) {
+	s := fn.String()
+	if !strings.Contains(s, "sync/atomic.") {
+		return "", false
+	}
+	name := fn.Name()
+	switch {
+	case strings.HasPrefix(name, "Load"):
+		return "load", true
+	case strings.HasPrefix(name, "Store"):
+		return "store", true
+	case strings.HasPrefix(name, "Add"):
+		return "add", true
+	case strings.HasPrefix(name, "Swap"):
+		return "swap", true
+	case strings.HasPrefix(name, "CompareAndSwap"):
+		return "cas", true
+	}
+	return "", false
+}
+
+// atomicCell: the memory cell an atomic operation works on. For the typed wrappers
+// (atomic.Int64, atomic.Value, atomic.Pointer[T], atomic.Bool …) it is the value field of the receiver.
+func (x *Exec) atomicCell(fn *ssa.Function, recv Ptr) Ptr {
+	if fn.Signature.Recv() == nil {
+		return recv
+	}
+	t := fn.Signature.Recv().Type()
+	if p, ok := t.(*types.Pointer); ok {
+		t = p.Elem()
+	}
+	st, ok := t.Underlying().(*types.Struct)
+	if !ok {
+		return recv
+	}
+	for i := 0; i < st.NumFields(); i++ {
+		if st.Field(i).Name() == "v" {
+			return Ptr{Obj: recv.Obj, Path: append(append([]Sel{}, recv.Path...), Sel{Field: i})}
+		}
+	}
+	panic(unsupported("atomic wrapper without value field: " + t.String()))
+}
+
+func (x *Exec) atomicOp(fn *ssa.Function, kind string, a []Value) Value {
+	recv := a[0].(Ptr)
+	if recv.Obj == nil {
+		x.obligation(tFalse, "nil pointer in atomic operation")
+	}
+	cell := x.atomicCell(fn, recv)
+	loc := cell.Obj.Name + pathKey(cell.Path)
+	ev := func(k string) {
+		if x.logEvents {
+			x.events = append(x.events, AccessEvent{Obj: cell.Obj, Path: pathKey(cell.Path), Sync: k, SyncID: cell.Obj.ID, Thread: x.thread})
+		}
+		_ = loc
+	}
+	x.yieldPoint()
+	rawLoad := func() Value { return copyVal(x.loadPath(cell.Obj.Val, cell.Path)) }
+	rawStore := func(v Value) {
+		cell.Obj.Val = x.storePath(cell.Obj.Val, cell.Path, copyVal(v))
+		if cell.Obj.Global {
+			x.markShared(v)
+			if !x.inInit {
+				x.writes[loc] = true
+			}
+		}
+	}
+	// atomic.Bool stores a uint32, atomic.Value stores an interface: convert at the boundary
+	cur := rawLoad()
+	toCell := func(v Value) Value {
+		if ct, ok := cur.(*Term); ok {
+			if vt, ok := v.(*Term); ok && vt.W != ct.W {
+				if vt.W == 0 {
+					return Ite(vt, BVi(1, ct.W), BVi(0, ct.W))
+				}
+			}
+		}
+		return v
+	}
+	fromCell := func(v Value) Value {
+		res := fn.Signature.Results()
+		if res.Len() == 1 && isBoolType(res.At(0).Type()) {
+			if vt, ok := v.(*Term); ok && vt.W != 0 {
+				return Ne(vt, BVi(0, vt.W))
+			}
+		}
+		return v
+	}
+	switch kind {
+	case "load":
+		ev("atomic-load")
+		return fromCell(cur)
+	case "store":
+		ev("atomic-store")
+		rawStore(toCell(a[1]))
+		return nil
+	case "swap":
+		ev("atomic-store")
+		rawStore(toCell(a[1]))
+		return fromCell(cur)
+	case "add":
+		ev("atomic-store")
+		nv := Add(asTerm(cur), asTerm(a[1]))
+		rawStore(nv)
+		return nv
+	case "cas":
+		ev("atomic-store")
+		eq := x.valEq(cur, toCell(a[1]))
+		if x.branch(eq) {
+			rawStore(toCell(a[2]))
+			return tTrue
+		}
+		return tFalse
+	}
+	panic(unsupported("atomic operation " + fn.String()))
+}
+
+// yieldPoint is a scheduling point of the (optional) interleaving explorer.
+func (x *Exec) yieldPoint() {
+	if x.sched != nil {
+		x.sched.yield(x)
+	}
 }
